@@ -1,10 +1,10 @@
-\* all layouts of length <= 4 over 2 hooks, groups {"", g1, g2}, one context per task
+\* layouts of length <= 3 in which every HookRun task may be one the caller's stopCombineFn rejects: 27 task kinds
 SPECIFICATION Spec
 CONSTANTS
-  MaxLen = 4
+  MaxLen = 3
   HookNames = {"a", "b"}
   Groups = {"", "g1", "g2"}
   TwoCtx = FALSE
-  WithStop = FALSE
+  WithStop = TRUE
 INVARIANTS KeepsOrder OnlySameHookAndType NoGroupRun StopEndsTheRun Emit
 CHECK_DEADLOCK FALSE
